@@ -82,7 +82,8 @@ def gen_c01(tier, seed):
         for eci in (True, False):
             add(call('make_qr', txt, encoding=enc, eci=eci))
             add(call('make_qr', txt.encode(enc), encoding=enc, eci=eci))
-    for txt in ('aä', 'ｱｲ', '€uro', 'abc', '点茗', '123'):
+    # incl. characters that cp932 / vendor extensions can encode but JIS X 0208 Shift JIS cannot (must fall back to UTF-8)
+    for txt in ('aä', 'ｱｲ', '€uro', 'abc', '点茗', '123', '①②③', '㈱髙', 'a～b', '①'):
         for eci in (True, False):
             for micro in (None, False):
                 add(call('make', txt, eci=eci, micro=micro))
@@ -164,7 +165,7 @@ def exact_matrix_part(rep, tier, tags):
     conformance: every exported argument vector is executed and Trace_Segno re-runs the machine on the observation."""
     import json
     cfg = 'Segno_q5.cfg' if tier == 'quick' else 'Segno_thorough.cfg'
-    out, st = common.run_tlc('MC_Segno', cfg=cfg, workers=common.NCPU, timeout=3000, xmx='12g')
+    out, st = common.run_tlc('MC_Segno', cfg=cfg, workers=common.NCPU, timeout=3000, xmx='12g', coverage=True)
     rep.add_design('MC_Segno', cfg, out, st, 'pipeline state machine on all contents of length <= 2 over a class-boundary alphabet: invariants C01_RoundTrip, '
                    'C02_Geometry, C03_Blocks, C06_Mask, C07_ModeInSymbol, C13_Tail, Dev_Recognised (reference decoder applied to the reference encoder)')
     vecs = common.parse_vectors(out)
@@ -374,6 +375,11 @@ def gen_c03(tier, seed):
                 for _ in range(npat - 1):
                     faults.append(fault_pattern(r, v, e, lambda ec: r.randint(1, max(1, ec // 2))))
                 specs.append((c, faults, (v, e) in ((-2, 'L'), (0, 'Q'), (1, 'H'), (3, 'Q'), (5, 'Q')) and k == 0))
+    # data codeword sequences that start with zero codewords (M4, numeric, one digit: 000 000001 dddd)
+    for e in ('L', 'M', 'Q'):
+        for d in ('0', '7'):
+            c = call('make', d, version='M4', error=e, boost_error=False)
+            specs.append((c, [fault_pattern(r, 0, e, lambda ec: ec // 2)], False))
     return specs
 
 
@@ -430,7 +436,7 @@ def gen_c06(tier, seed):
             continue
         calls.append(content_call(r, v, e, mode, r.randint(1, nmax)))
     for v in range(5, 41):
-        for _ in range(1 if tier == 'quick' else 6):
+        for _ in range((3 if v <= 12 else 1) if tier == 'quick' else 6):
             e = r.choice(QR_LEVELS)
             mode = r.choice(modes_of(v, hanzi=False))
             calls.append(content_call(r, v, e, mode, r.randint(1, T.max_chars(v, e, mode))))
@@ -453,6 +459,11 @@ def run_c06(rep, tier):
                   call('make_sequence', gen.alnum(r, 90), version=1, mask=m, error='Q')):
             obs += symobs.observe_sequence_symbols(c, props=['C06'])
             nseq += 1
+    # automatic mask in sequences: every symbol gets its own best mask
+    for c in (call('make_sequence', gen.latin1(r, 40), version=1), call('make_sequence', gen.alnum(r, 120), symbol_count=4),
+              call('make_sequence', gen.digits(r, 200), version=2, error='M'), call('make_sequence', gen.latin1(r, 300), symbol_count=5, error='Q')):
+        obs += symobs.observe_sequence_symbols(c, props=['C06'])
+        nseq += 1
     rep.evaluations += nseq
     note_refusals(rep, obs)
 
